@@ -31,6 +31,7 @@ RULE = (
     'supplied policy during that call. Non-trivial: sharing and >=2 distinct non-JSON leaf '
     'types, or bytes with a backslash, or a policy document with a disapproved pyref.'
 )
+RULE += (' ' + 'Also generated: a class and a function whose snake-cased names collide (DataLoader / data_loader) in one document.')
 ASSUMPTIONS = [
     "json.loads is the documented parser: Python's NaN/Infinity tokens are admitted",
     'a dump that raises is a rejection (lossless-or-loud); only returned documents are judged',
